@@ -45,6 +45,9 @@ impl Case {
             Subject::Core { op, shape } => {
                 if op.starts_with("ckks_") && shape.flags & 1 == 1 {
                     format!("{op}+widedst")
+                } else if op == "glwe_pack" && shape.flags & 1 == 1 {
+                    // the inputs have their own layout (the query is only told the result's)
+                    format!("{op}+srclayout")
                 } else {
                     op.clone()
                 }
@@ -203,6 +206,8 @@ pub struct CaseOutcome {
     pub hwm: usize,
     pub tight: bool,
     pub short_fails: Option<bool>,
+    /// REPEAT window: Some(true) ran, Some(false) the reference refuses a second call
+    pub repeat: Option<bool>,
 }
 
 fn outs_hash(o: &RunOut) -> u64 {
@@ -218,6 +223,7 @@ pub fn execute(case: &Case) -> CaseOutcome {
         hwm: 0,
         tight: false,
         short_fails: None,
+        repeat: None,
     };
     // reference: generous window, zero filled
     let (g, grep) = run(
@@ -339,6 +345,61 @@ pub fn execute(case: &Case) -> CaseOutcome {
             }
         }
     }
+    // REPEAT (inventory ops, every other case): the call made twice in a row on the same exact, poisoned
+    // window must give what it gives twice in a row on a zeroed generous one. A second call that the
+    // operation's own contract refuses (stateful packers) fails in the reference too and is skipped.
+    if matches!(case.subject, Subject::Core { .. }) && case.sched_seed % 2 == 0 {
+        let (r2, _) = run(
+            case,
+            &Window {
+                mode: WindowMode::GenerousTwice,
+                fill_seed: 0,
+            },
+            false,
+        );
+        if let Ok(g2) = r2 {
+            let (r, rep) = run(
+                case,
+                &Window {
+                    mode: WindowMode::ExactTwice,
+                    fill_seed: case.fill_b,
+                },
+                false,
+            );
+            match r {
+                Err(p) => {
+                    out.violation = Some((
+                        "FIT".into(),
+                        "second_call_panics_with_declared_size".into(),
+                        format!("{} [exact_twice/poison_b]: the same call repeated on the same window of {} declared bytes -> {p}", case.name(), g.declared),
+                    ));
+                    return out;
+                }
+                Ok(o) => {
+                    if let Some(a) = rep.as_ref().and_then(|r| r.arena_violation.as_ref()) {
+                        out.violation = Some(("FIT".into(), "arena_contract".into(), format!("{} [exact_twice/poison_b]: {a}", case.name())));
+                        return out;
+                    }
+                    if !o.canary_ok {
+                        out.violation = Some(("FIT".into(), "wrote_outside_window".into(), format!("{} [exact_twice/poison_b]: bytes outside the scratch window were modified", case.name())));
+                        return out;
+                    }
+                    if o.outs != g2.outs {
+                        let which = o.outs.iter().zip(g2.outs.iter()).position(|(a, b)| a != b).unwrap_or(0);
+                        out.violation = Some((
+                            "CLEAN".into(),
+                            "second_call_depends_on_first".into(),
+                            format!("{} [exact_twice/poison_b]: output {which} of the repeated call differs from the repeated call on a zeroed generous scratch", case.name()),
+                        ));
+                        return out;
+                    }
+                }
+            }
+            out.repeat = Some(true);
+        } else {
+            out.repeat = Some(false);
+        }
+    }
     // sensitivity probe: one byte less than the high-water mark must not fit
     if hwm > 0 && hwm <= g.declared {
         let short = g.declared - hwm + 1;
@@ -388,7 +449,8 @@ pub fn generate(seed: u64, idx: u64, thorough: bool) -> Case {
             circuit_seed: rng.next(),
             outputs,
             out_extra: 0,
-            threads: *rng.pick(&[1usize, 1, 2, 3, 4, 7]),
+            // 1, 2, counts that do not divide / exceed the 1..8 outputs, above 32
+            threads: *rng.pick(&[1usize, 1, 2, 3, 4, 7, 9, 33]),
             out_poison: 0,
         })
     } else {
@@ -408,7 +470,8 @@ pub fn generate(seed: u64, idx: u64, thorough: bool) -> Case {
             word_bits,
             bit_start,
             bit_count,
-            threads: if slot as usize == ops.len() + 3 { 1 } else { *rng.pick(&[2usize, 3, 4]) },
+            // (1..4 bits to prepare: 2, a count that does not divide them, more threads than bits, above 32)
+            threads: if slot as usize == ops.len() + 3 { 1 } else { *rng.pick(&[2usize, 3, 4, 5, 33]) },
         })
     };
     Case {
@@ -470,6 +533,11 @@ impl CheckImpl for C12 {
             match o.short_fails {
                 Some(true) => acc.bump("probe.one_byte_short_window_panics"),
                 Some(false) => acc.bump("probe.one_byte_short_window_still_fits"),
+                None => {}
+            }
+            match o.repeat {
+                Some(true) => acc.bump("probe.repeat_window_ran"),
+                Some(false) => acc.bump("probe.repeat_refused_by_the_operation_itself"),
                 None => {}
             }
             let class = match &case.subject {
